@@ -105,6 +105,28 @@ def gen_C03(g, tier):
         cs.append(Case('cv.toH %s' % frs(j), 'cmp', 'special-' + tag))
         cs.append(Case('cv.toU %s' % frs(j), 'cmp', 'special-' + tag))
         cs.append(Case('o.c03.roundJ %s' % frs(j), 'orc', 'special-' + tag))
+    # biquaternions with determinant exactly (1,0) that are not unitary / not Hermitian (hyperbolic and circular rational points,
+    # on every pair of components): "unit determinant" must not be mistaken for "rotation"
+    def hyp(t): return (1 + t * t) / (1 - t * t), 2 * t / (1 - t * t)
+    def circ(t): return (1 - t * t) / (1 + t * t), 2 * t / (1 + t * t)
+    for _ in range(max(6, n // 6)):
+        t = g.nz()
+        while abs(t) == 1: t = g.nz()
+        i, j = g.r.sample(range(4), 2)
+        fam = []
+        a, b = hyp(t); q = [F(0)] * 8; q[2 * i] = a; q[2 * j + 1] = b; fam.append(('U', list(q)))          # z_i = a, z_j = i b: a^2 + (ib)^2 = 1
+        a, b = circ(t); q = [F(0)] * 8; q[2 * i + 1] = a; q[2 * j + 1] = b; fam.append(('U-1', list(q)))    # det = -1
+        a, b = circ(t); q = [F(0)] * 8; q[2 * i] = a; q[2 * j] = b; fam.append(('U', list(q)))              # a genuine rotation, for contrast
+        if i == 0 or j == 0:
+            k = j if i == 0 else i
+            a, b = hyp(t); q = [F(0)] * 8; q[0] = a; q[2 * k] = b; fam.append(('H', list(q)))                 # s0^2 - s_k^2 = 1 (a boost)
+            a, b = circ(t); q = [F(0)] * 8; q[0] = a; q[2 * k + 1] = b; fam.append(('H', list(q)))            # s0^2 - (ib)^2 = 1
+        for tag, q in fam:
+            for op in C03_UN_B: cs.append(Case('%s %s' % (op, frs(q)), 'cmp', 'unimodular-' + tag))
+            for op in ('o.c03.roundH', 'o.c03.roundU', 'o.c03.funH', 'o.c03.funU'): cs.append(Case('%s %s' % (op, frs(q)), 'orc', 'unimodular-' + tag))
+            other = cxs(g, 4)
+            cs.append(Case('o.c03.homH %s %s' % (frs(q), frs(other)), 'orc', 'unimodular-' + tag))
+            cs.append(Case('o.c03.homU %s %s' % (frs(q), frs(other)), 'orc', 'unimodular-' + tag))
     # seeded random
     for _ in range(n):
         a, b, c = cxs(g, 4), cxs(g, 4), g.rats(2)
@@ -273,6 +295,14 @@ def gen_C15(g, tier):
         cs.append(Case('j.trace %s' % frs(g.rats(8)), 'cmp', 'random'))
         cs.append(Case('o.c15.inner %s %s %s %s' % (frs(a), frs(b), frs(c), fr(s)), 'orc', 'random'))
         cs.append(Case('o.c15.outer %s %s %s %s' % (frs(a), frs(b), frs(c), fr(s)), 'orc', 'random'))
+    return cs
+
+
+
+def gen_dbl_c15(g, tier):
+    """double/float-only oracle of C15 (harness group dbl)"""
+    n = 80 if tier == 'quick' else 2000
+    cs = []
     # dyadic operands across 100 binary orders of magnitude between the two vectors
     for _ in range(n):
         ka, kb = g.randint(-50, 50), g.randint(-50, 50)
@@ -372,10 +402,31 @@ def gen_C02(g, tier):
         k = g.randint(1, 20)
         seq = [g.choice(bas)[1] for _ in range(k)]
         cs.append(Case('basis.seq %d %s' % (k, ' '.join(seq)), 'cmp', 'basis-sequence'))
+    # histories that contain refused settings (set_basis throws for the enumerator Elliptical and for unknown codes): the two
+    # directions of the conversion must stay mutually consistent, in whatever basis the object is left
+    named = [b for t, b in bas if t != 'ell']; ells = [b for t, b in bas if t == 'ell']
+    for _ in range(8 if tier == 'quick' else 150):
+        last = g.choice(named + ells[:3]); hist = [g.choice(named + ells) for _ in range(g.randint(0, 3))] + [last] + ['bad' for _ in range(g.randint(1, 2))]
+        b = 'hist %d %s' % (len(hist), ' '.join(hist)); s_, j_, j2_ = g.rats(4), g.rats(8), g.rats(8)
+        if last in named:
+            cs.append(Case('o.c02.round %s %s' % (b, frs(s_)), 'orc', 'refused-setting-in-history'))
+            cs.append(Case('o.c02.transform %s %s %s' % (b, frs(s_), frs(j_)), 'orc', 'refused-setting-in-history'))
+            cs.append(Case('o.c02.compose %s %s %s' % (b, frs(j_), frs(j2_)), 'orc', 'refused-setting-in-history'))
+        else:
+            cs.append(Case('o.c02.round %s %s' % (b, frs(s_)), 'orc', 'refused-setting-in-history', check=small_rel(1e-12, s_)))
+            cs.append(Case('o.c02.transform %s %s %s' % (b, frs(s_), frs(j_)), 'orc', 'refused-setting-in-history', check=small_rel(1e-11, s_, (j_, 4))))
     for _ in range(20 if tier == 'quick' else 300):
         cs.append(Case('st.invariant %s' % frs(g.rats(4)), 'cmp', 'random'))
         cs.append(Case('sp.apply %s %s' % (frs(g.rats(8)), frs(g.rats(4))), 'cmp', 'random'))
     return cs
+
+
+def c02_replay_check(vals, line_out, line=None):
+    """replayed oracle lines: exact in the named bases; in an elliptical basis (rounded sin/cos) residuals up to rounding"""
+    if vals is None: return 'error result ' + line_out[:100]
+    big = [abs(float(v)) for v in vals if v != 0]
+    if not big: return None
+    return 'non-zero residual %g' % max(big)
 
 
 C02 = dict(
